@@ -328,3 +328,25 @@ def expand_expr(func, expr, depth: int = 4):
     plain assignment is replaced by its value (recursively, bounded)."""
     import copy
     return _Expand(func, depth).visit(copy.deepcopy(expr))
+
+
+def none_edges(g, var_text: str):
+    """[(test node, label)]: the CFG edges on which the expression whose
+    source text is var_text is known to be None / falsy (`x is None` true
+    edge, `x is not None` / `x` false edge, with any number of `not`)."""
+    out = []
+    for t in g.nodes:
+        if t.kind not in ('test', 'operand') or t.ast is None:
+            continue
+        a, neg = t.ast, False
+        while isinstance(a, ast.UnaryOp) and isinstance(a.op, ast.Not):
+            a, neg = a.operand, not neg
+        if isinstance(a, ast.Compare) and len(a.ops) == 1 and \
+                ast.unparse(a.left) == var_text and \
+                ast.unparse(a.comparators[0]) == 'None' and \
+                isinstance(a.ops[0], (ast.Is, ast.IsNot, ast.Eq, ast.NotEq)):
+            is_none = isinstance(a.ops[0], (ast.Is, ast.Eq))
+            out.append((t, 'T' if is_none != neg else 'F'))
+        elif ast.unparse(a) == var_text:
+            out.append((t, 'T' if neg else 'F'))
+    return out
